@@ -106,9 +106,112 @@ def r3(rep, prog):
     rep.floor(R, "bound-to-range helpers of the fast-field range query", n, 2)
 
 
+WIDTH = {"u8": 8, "i8": 8, "u16": 16, "i16": 16, "u32": 32, "i32": 32, "u64": 64, "i64": 64, "usize": 64, "isize": 64, "u128": 128, "i128": 128}
+
+
+def r4(rep, prog):
+    """a value-range bound is never narrowed blindly"""
+    import re
+    from ..rules import dominating_guards
+    from ..model import op_place, place_local
+    R = "C08-R4"
+    rep.rule(R, "range bounds are narrowed only under a guard: the value-range lookups of the fast field codecs (functions named *value_range* in bitpacker and columnar) receive u64 / u128 bounds that may lie outside what the column can hold; wherever such a bound is cast to a narrower integer, either the operand went through a clamp (min / max / clamp) or the cast is dominated by a test of the same bound against a MAX constant (the `start > u32::MAX` early exit). A bare `as u32` keeps the low bits only: an upper bound above 2^32 turns into a small one and documents in range are dropped")
+    CLAMP = re.compile(r"::cmp::(min|max|Ord::min|Ord::max|Ord::clamp)$|::(clamp|min|max)$")
+    ACC = set(prog.names(r"^core::ops::range::RangeInclusive::<Idx>::(start|end)$|^core::ops::range::RangeBounds::(start_bound|end_bound)$"))
+    n_fn = n_cast = 0
+    for b in prog.bodies.values():
+        if b.kind in ("const", "static", "promoted") or "::tests::" in b.id or "::test::" in b.id:
+            continue
+        if not (b.crate in ("tantivy_bitpacker", "tantivy_columnar") and re.search(r"value_range", b.id.split("::{closure")[0].rsplit("::", 1)[-1])):
+            continue
+        n_fn += 1
+        for bi in b.normal_blocks():
+            for st in b.stmts(bi):
+                if st.get("r") != "cast" or st.get("ck") != "int2int":
+                    continue
+                pl = op_place(st["o"][0])
+                if pl is None:
+                    continue
+                src = b.local_ty_str(place_local(pl)) if "*" not in str(pl) and isinstance(pl, int) else b.place_ty_str(pl)
+                dst = b.types[st["ty"]]["s"]
+                if WIDTH.get(dst, 0) >= WIDTH.get(src, 0) or dst not in WIDTH or src not in WIDTH:
+                    continue
+                lv = provenance(b, place_local(pl))
+                thru = provenance(b, place_local(pl), extra_transparent=ACC | {x[1] for x in lv if x[0] == "call" and CLAMP.search(x[1])})
+                params = {x for x in thru if x[0] == "param"}
+                if not params:
+                    continue
+                # only bounds: the parameter is a range / bound of the wide type
+                wide = [x for x in params if re.search(r"Range|Bound|u64|u128", b.local_ty_str(x[1]))]
+                if not wide:
+                    continue
+                n_cast += 1
+                clamped = any(x[0] == "call" and CLAMP.search(x[1]) for x in lv)
+                guarded = False
+                acc_of = lambda leaves: {x[1] for x in leaves if x[0] == "call" and x[1] in ACC}
+                my_acc = acc_of(provenance(b, place_local(pl), extra_transparent={x[1] for x in lv if x[0] == "call" and CLAMP.search(x[1])}))
+                for sb, through, gl in dominating_guards(b, bi):
+                    glv = provenance(b, gl, extra_transparent=ACC)
+                    g_acc = acc_of(provenance(b, gl))
+                    if my_acc and g_acc and not (my_acc & g_acc):
+                        continue   # the test is about the other end of the range
+                    if ({x for x in glv if x[0] == "param"} & params) and any(x[0] in ("const", "uneval") and ("MAX" in str(x[1]) or str(x[1]) in ("4294967295", "65535", "255", "18446744073709551615")) for x in glv):
+                        guarded = True
+                rep.check(clamped or guarded, R, "narrowing %s -> %s of a bound in %s" % (src, dst, short(b.id)), "clamped" if clamped else "guarded by a MAX test",
+                          "`%s` casts a range bound from %s to %s without a clamp and without a dominating test against the narrow type's MAX: a bound above %s::MAX keeps its low bits only, the lookup then "
+                          "uses a range that is smaller than the one requested and silently drops documents whose value is in range" % (b.id, src, dst, dst), site=site(b, bi))
+    rep.floor(R, "value-range lookup bodies", n_fn, 10)
+    rep.floor(R, "narrowing casts of a bound", n_cast, 2)
+
+
+def r5(rep, prog):
+    """a term that is alive in one segment is kept by the merge"""
+    from ..rules import bool_states_from
+    from ..model import op_place
+    R = "C08-R5"
+    rep.rule(R, "alive anywhere means kept: when dictionary columns are merged with deletes, is_term_present decides whether a term enters the merged dictionary; it is an existential over the segments that hold the term. Two events witness it — a segment without a term bitset (no deletes there: every term is alive) and BitSet::contains(term) answering true. From each witness, on every path to the return the function's result is `true` (bool constant propagation with branch refinement over the MIR from the witness block): a later segment in which the term only occurs in deleted rows cannot take the answer back. A dropped term leaves its ordinal mapping at 0: live rows silently read another term")
+    fid = "tantivy_columnar::columnar::merge::merge_dict_column::is_term_present"
+    b = get_body(rep, prog, R, fid)
+    if b is None:
+        return
+    wit = []
+    for bi in b.normal_blocks():
+        t = b.term(bi)
+        if t["k"] != "switch":
+            continue
+        p = op_place(t["on"])
+        if p is None:
+            continue
+        tr = trace_back(b, p)
+        if not tr or tr[-1][0] != "call":
+            continue
+        callee = tr[-1][1]
+        listed = {v: tg for v, tg in t["vals"]}
+        if callee.endswith("Option::<T>::as_ref") and any(x[0] == "discr" for x in tr):
+            # None arm: discriminant 0
+            none_tg = listed.get("0", t.get("else") if "1" in listed else None)
+            if none_tg is not None:
+                wit.append(("segment without a term bitset (None arm)", none_tg, {}))
+    for bi, t in b.calls():
+        if (t.get("res") or t.get("f") or "").endswith("BitSet::contains") and t.get("to") is not None and t.get("dest") is not None:
+            wit.append(("BitSet::contains(term) is true", t["to"], {t["dest"]: True}))
+    if not rep.check(len(wit) >= 2, R, "witness events found in is_term_present", "%d" % len(wit),
+                     "cannot establish: is_term_present no longer shows the two witnesses (a None term bitset, BitSet::contains true); found %s" % [w[0] for w in wit], site=b.span):
+        return
+    for name, blk, init in wit:
+        res = bool_states_from(b, blk, init)
+        bad = sorted(rb for rb, v in res.items() if v is not True)
+        rep.check(bool(res) and not bad, R, "after `%s` the result is true" % name, "constant propagation from bb%d: %s" % (blk, {k: v for k, v in res.items()}),
+                  "is_term_present can return something else than `true` after the witness `%s` (value of the result at the return reached from bb%d: %s): the term is alive in that segment but a later segment "
+                  "in which it only occurs in deleted rows overrides the answer, the term is dropped from the merged dictionary and the rows that hold it read the term with merged ordinal 0" % (name, blk, {k: v for k, v in res.items()}),
+                  site=site(b, blk) if "lib.rs:1 " not in site(b, blk) else b.span)
+
+
 def run(rep, prog, tier):
     r2(rep, prog)
     r3(rep, prog)
+    r4(rep, prog)
+    r5(rep, prog)
     R = "C08-R1"
     rep.rule(R, "every (to_code, try_from_code) pair of the columnar format is mutually inverse on all variants; COLUMN_TYPES[i] has discriminant i and covers the enum; ALL_U64_CODEC_TYPES is complete; the current format version is accepted by the reader")
     rep.not_decided += ["codec arithmetic, optional / multivalued indexes, merge (values)"]
